@@ -63,6 +63,33 @@ class DataArray:
         self.name = name
         self._coords = dict(coords) if isinstance(coords, dict) else {}
 
+    # -- xarray's subclass protocol: every derived array is built through _replace / _copy
+    def _replace(self, variable=None, coords=None, name="__default__", **kw):
+        if variable is None:
+            variable = self._v
+        if name == "__default__":
+            name = self.name
+        return type(self)(variable, name=name)
+
+    def _new(self, data, dims, attrs=None, name="__default__"):
+        return self._replace(_Var(data, dims, dict(self._v.attrs if attrs is None else attrs)), name=name)
+
+    def _copy(self, deep=True, data=None, memo=None):
+        d = self._v.data.copy() if deep else self._v.data
+        if data is not None:
+            d = _as_data(data)
+        v = _Var(d, self._v.dims, _copy.deepcopy(self._v.attrs) if deep else dict(self._v.attrs))
+        return self._replace(v)
+
+    def copy(self, deep=True, data=None):
+        return self._copy(deep=deep, data=data)
+
+    def __copy__(self):
+        return self._copy(deep=False)
+
+    def __deepcopy__(self, memo=None):
+        return self._copy(deep=True, memo=memo)
+
     # -- data access
     @property
     def values(self):
@@ -132,13 +159,13 @@ class DataArray:
 
     @property
     def T(self):
-        return DataArray(self._v.data.T, dims=tuple(reversed(self._v.dims)), attrs=self._v.attrs, name=self.name)
+        return self._new(self._v.data.T, tuple(reversed(self._v.dims)))
 
     def transpose(self, *dims):
         if not dims:
             return self.T
         ax = [self._v.dims.index(d) for d in dims]
-        return DataArray(self._v.data.transpose(*ax), dims=dims, attrs=self._v.attrs, name=self.name)
+        return self._new(self._v.data.transpose(*ax), dims)
 
     def __getattr__(self, k):
         if k.startswith("__") or k in ("_v", "name", "_coords"):
@@ -195,7 +222,7 @@ class DataArray:
                 dims = tuple(kept)[: r.ndim] if len(kept) >= r.ndim else tuple(f"dim_{i}" for i in range(r.ndim))
             else:
                 dims = dims[len(dims) - r.ndim:]
-        return DataArray(r, dims=dims, attrs=self._v.attrs, name=self.name)
+        return self._new(r, dims)
 
     def __setitem__(self, key, val):
         self._v.data[key] = val.data if isinstance(val, DataArray) else val
@@ -220,7 +247,7 @@ class DataArray:
                 dims.pop(ax)
             if not isinstance(d, SArr):
                 d = symnp.array(d)
-        return DataArray(d, dims=tuple(dims), attrs=self._v.attrs, name=self.name)
+        return self._new(d, tuple(dims))
 
     def equals(self, other):
         if not isinstance(other, DataArray):
@@ -235,36 +262,32 @@ class DataArray:
 
     identical = equals
 
-    def copy(self, deep=True, data=None):
-        d = self._v.data.copy() if deep else self._v.data
-        if data is not None:
-            d = _as_data(data)
-        return DataArray(d, dims=self._v.dims, attrs=_copy.deepcopy(self._v.attrs) if deep else self._v.attrs, name=self.name)
-
     def astype(self, dt):
-        return DataArray(self._v.data.astype(dt), dims=self._v.dims, attrs=self._v.attrs, name=self.name)
+        return self._new(self._v.data.astype(dt), self._v.dims)
 
     def rename(self, new=None, **kw):
-        r = DataArray(self._v, name=self.name)
         if isinstance(new, dict) or kw:
             m = dict(new or {})
             m.update(kw)
-            r = DataArray(self._v.data, dims=tuple(m.get(d, d) for d in self._v.dims), attrs=self._v.attrs, name=self.name)
-        elif new is not None:
-            r.name = new
-        return r
+            for k in m:
+                if k not in self._v.dims and k != self.name:
+                    raise ValueError(f"cannot rename {k!r} because it is not a variable or dimension in this dataset")
+            return self._new(self._v.data, tuple(m.get(d, d) for d in self._v.dims))
+        if new is not None:
+            return self._replace(name=new)
+        return self._replace()
 
     def assign_attrs(self, *a, **kw):
         attrs = dict(self._v.attrs)
         for x in a:
             attrs.update(x)
         attrs.update(kw)
-        return DataArray(self._v.data, dims=self._v.dims, attrs=attrs, name=self.name)
+        return self._new(self._v.data, self._v.dims, attrs=attrs)
 
     def squeeze(self):
         d = self._v.data
         dims = tuple(dm for dm, s in zip(self._v.dims, d.shape_cap) if s != 1)
-        return DataArray(d.squeeze(), dims=dims, attrs=self._v.attrs, name=self.name)
+        return self._new(d.squeeze(), dims)
 
     def chunk(self, *a, **k):
         return self
@@ -285,7 +308,8 @@ class DataArray:
 
     def _bin(self, o, f):
         od = o._v.data if isinstance(o, DataArray) else o
-        return DataArray(f(self._v.data, od), dims=self._v.dims, attrs={}, name=self.name)
+        r = f(self._v.data, od)
+        return self._new(r, self._v.dims, attrs={}) if isinstance(r, SArr) else r
 
     def __add__(s, o): return s._bin(o, lambda a, b: a + b)
     def __radd__(s, o): return s._bin(o, lambda a, b: b + a)
@@ -295,7 +319,7 @@ class DataArray:
     def __rmul__(s, o): return s._bin(o, lambda a, b: b * a)
     def __truediv__(s, o): return s._bin(o, lambda a, b: a / b)
     def __mod__(s, o): return s._bin(o, lambda a, b: a % b)
-    def __neg__(s): return DataArray(-s._v.data, dims=s._v.dims, attrs={}, name=s.name)
+    def __neg__(s): return s._new(-s._v.data, s._v.dims, attrs={})
     def __eq__(s, o): return s._bin(o, lambda a, b: a == b)
     def __ne__(s, o): return s._bin(o, lambda a, b: a != b)
     def __lt__(s, o): return s._bin(o, lambda a, b: a < b)
